@@ -27,6 +27,14 @@ type CacheBackend interface {
 	Exists(ctx context.Context, path string, key string) (bool, error)
 }
 
+// FullExistenceChecker is implemented by backends that write to more than one store.
+// Exists answers "can this key be read", which is true as soon as one store has it;
+// writers that want to skip a Set need to know that no store is missing the key.
+type FullExistenceChecker interface {
+	// ExistsEverywhere checks if a file exists in every store that Set writes to.
+	ExistsEverywhere(ctx context.Context, path string, key string) (bool, error)
+}
+
 func GetCacheBackend(
 	ctx context.Context,
 	cacheConfig config.CacheConfig,
